@@ -375,5 +375,22 @@ pub fn gen_entry(rng: &mut Rng, ascii_only: bool, long_ok: bool) -> Entry {
             e.insert(i, gen_val(rng, i, ascii_only, long_ok));
         }
     }
+    // the shape real pkg_summary data has: the description of a package with a HOMEPAGE
+    // ends in an empty line, "Homepage:" and that URL (pkg_info appends them)
+    if rng.chance(1, 5) {
+        let url = match e.get(&9) {
+            Some(Val::S(u)) => u.clone(),
+            _ => {
+                let u = "https://www.example.org/".to_string();
+                e.insert(9, Val::S(u.clone()));
+                u
+            }
+        };
+        if let Some(Val::A(d)) = e.get_mut(&V_DESCRIPTION) {
+            d.push(String::new());
+            d.push("Homepage:".to_string());
+            d.push(url);
+        }
+    }
     e
 }
